@@ -9,18 +9,34 @@ VfHost& VfHost::get() { static VfHost* h = new VfHost(); return *h; }
 
 void VfHost::reset() {
   faults.clear(); objects.clear(); events.clear(); visits.clear(); fired_by_kind.clear(); fired = 0;
-  yield_in_calls = true; on_create = nullptr; on_point = nullptr;
+  yield_in_calls = true; actor = -1; on_create = nullptr; on_point = nullptr;
 }
 
 } // namespace sim
 
 using namespace sim;
 
+// Under ThreadSanitizer the interceptors (memcpy, operator new) see this uninstrumented code as well:
+// its accesses are neither reported nor used as synchronisation.
+extern "C" {
+void AnnotateIgnoreReadsBegin(const char*, int) __attribute__((weak));
+void AnnotateIgnoreReadsEnd(const char*, int) __attribute__((weak));
+void AnnotateIgnoreWritesBegin(const char*, int) __attribute__((weak));
+void AnnotateIgnoreWritesEnd(const char*, int) __attribute__((weak));
+}
+namespace {
+struct TsanIgnore {
+  TsanIgnore() { if (AnnotateIgnoreReadsBegin) { AnnotateIgnoreReadsBegin(__FILE__, __LINE__); AnnotateIgnoreWritesBegin(__FILE__, __LINE__); } }
+  ~TsanIgnore() { if (AnnotateIgnoreReadsBegin) { AnnotateIgnoreWritesEnd(__FILE__, __LINE__); AnnotateIgnoreReadsEnd(__FILE__, __LINE__); } }
+};
+}
+
 extern "C" {
 
 __attribute__((visibility("default"))) void simvf_point(int module, long id, void* ctx, SimVfFault* out) {
+  TsanIgnore ign;
   VfHost& h = VfHost::get();
-  int task = sim_current_task();
+  int task = h.actor >= 0 ? h.actor : sim_current_task();
   long v = ++h.visits[{task, id}];
   h.events.push_back({task, 'P', id, v, ""});
   if (h.on_point) h.on_point(id, ctx);
@@ -37,8 +53,9 @@ __attribute__((visibility("default"))) void simvf_point(int module, long id, voi
 }
 
 __attribute__((visibility("default"))) long simvf_created(int module, void* ctx, long tag) {
+  TsanIgnore ign;
   VfHost& h = VfHost::get();
-  int task = sim_current_task();
+  int task = h.actor >= 0 ? h.actor : sim_current_task();
   ObjRec r; r.oid = (long)h.objects.size() + 1; r.module = module; r.ctx = ctx; r.tag = tag; r.task = task;
   h.objects.push_back(r);
   h.events.push_back({task, 'C', r.oid, module, ""});
@@ -47,8 +64,9 @@ __attribute__((visibility("default"))) long simvf_created(int module, void* ctx,
 }
 
 __attribute__((visibility("default"))) void simvf_destroyed(int module, long oid, int was_live) {
+  TsanIgnore ign;
   VfHost& h = VfHost::get();
-  int task = sim_current_task();
+  int task = h.actor >= 0 ? h.actor : sim_current_task();
   h.events.push_back({task, 'D', oid, was_live, ""});
   if (oid >= 1 && oid <= (long)h.objects.size()) {
     ObjRec& r = h.objects[oid - 1];
@@ -60,7 +78,8 @@ __attribute__((visibility("default"))) void simvf_destroyed(int module, long oid
 __attribute__((visibility("default"))) void simvf_method(int module, long oid, int was_live, int method, const char* argdump) {
   VfHost& h = VfHost::get();
   if (h.yield_in_calls) Sched::yield();
-  int task = sim_current_task();
+  TsanIgnore ign;
+  int task = h.actor >= 0 ? h.actor : sim_current_task();
   h.events.push_back({task, 'M', oid, method, argdump ? argdump : ""});
   if (oid >= 1 && oid <= (long)h.objects.size()) {
     ObjRec& r = h.objects[oid - 1];
@@ -70,7 +89,7 @@ __attribute__((visibility("default"))) void simvf_method(int module, long oid, i
 
 __attribute__((visibility("default"))) void simvf_yield(long id) {
   VfHost& h = VfHost::get();
-  h.events.push_back({sim_current_task(), 'Y', id, 0, ""});
+  { TsanIgnore ign; h.events.push_back({h.actor >= 0 ? h.actor : sim_current_task(), 'Y', id, 0, ""}); }
   Sched::yield();
 }
 
